@@ -3482,7 +3482,7 @@ MUTANTS = [
     _m("cartgrid-2d-xmin-dropped", "            nodes_x = xmin + np.linspace(0, physdims[0], nx[0] + 1)\n            nodes_y = ymin + np.linspace(0, physdims[1], nx[1] + 1)\n            super().__init__(nodes_x, nodes_y, name=name)",
        "            nodes_x = np.linspace(0, physdims[0], nx[0] + 1)\n            nodes_y = ymin + np.linspace(0, physdims[1], nx[1] + 1)\n            super().__init__(nodes_x, nodes_y, name=name)", "R8", file=STRUCT),
     # --- reverted fixes
-    _m("revert-56ea32ad3-compute-tangent-absolute-allclose", "        assert np.any(tangent != 0)\n", "        assert not np.allclose(tangent, np.zeros(3))\n", "R7", file=MAPG),
+    _m("revert-438f82d0c-compute-tangent-absolute-allclose", "        assert np.any(tangent != 0)\n", "        assert not np.allclose(tangent, np.zeros(3))\n", "R7", file=MAPG),
     _m("revert-ceffbbbfa-cartgrid-dict-physdims-1d", "            physdims = physdims[0] if len(dims) == 0 else physdims[: dims[0]]\n", "", "R8", file=STRUCT),
     _m("3d-volume-tolerance-relative-to-nothing", "if not np.all(tet_volumes > -1e-12):", "if not np.all(tet_volumes > 1e-12):", "R7"),
 ]
